@@ -122,7 +122,7 @@ def run(ctx):
     n = 40 if ctx.thorough() else 4
     proof_ok = True
     detail = {}
-    ok, out = ctx.regen(["arith", "policy"])
+    ok, out = ctx.regen(["arith", "policy", "chunkpreds"])
     if not ok:
         proof_ok = False
         detail["translator"] = out[-2000:]
